@@ -31,6 +31,7 @@ var registry = map[string]checkFn{
 	"C11": runC11,
 	"C12": runC12,
 	"C13": runC13,
+	"C14": runC14,
 	"C16": runC16,
 	"C18": runC18,
 	"C19": runC19,
